@@ -483,7 +483,7 @@ func (x *vArbCtx) closeQuit() {
 func vRunCase(t *testing.T, db kvdb.Backend, c *vCaseA) {
 	x := vNewArb(t, db, c)
 	arb := x.arb
-	c.Obs = nil
+	c.Obs = []vObsA{}
 	for _, op := range c.Ops {
 		errs := ""
 		switch op.Op {
@@ -660,7 +660,7 @@ func vCompleteRes(l []vHtlc) *vRes {
 }
 
 func vGenCase(r *vrng, id int) *vCaseA {
-	c := &vCaseA{ID: id}
+	c := &vCaseA{ID: id, Ops: []vOpA{}}
 	deltas := []int64{0, 1, 3, 5, 10, 40}
 	c.Env.InD = deltas[r.intn(len(deltas))]
 	c.Env.OutD = deltas[r.intn(len(deltas))]
@@ -794,6 +794,9 @@ func vGenCase(r *vrng, id int) *vCaseA {
 		}
 	}
 	if r.intn(8) == 0 {
+		if len(c.Ops) == 0 {
+			c.Ops = append(c.Ops, vOpA{Op: "block", H: h})
+		}
 		return c // no close event
 	}
 	kinds := []string{"local", "remote", "remote", "pending", "breach", "coop"}
